@@ -301,6 +301,10 @@ type WrapTokenRequestList struct {
 }
 
 func (a *BridgeApi) GetAllWrapTokenRequests(pageIndex, pageSize uint32) (*WrapTokenRequestList, error) {
+	if pageSize > api.RpcMaxPageSize {
+		return nil, api.ErrPageSizeParamTooBig
+	}
+
 	_, context, err := api.GetFrontierContext(a.chain, types.BridgeContract)
 	if err != nil {
 		return nil, err
@@ -342,6 +346,10 @@ func (a *BridgeApi) GetAllWrapTokenRequests(pageIndex, pageSize uint32) (*WrapTo
 }
 
 func (a *BridgeApi) GetAllWrapTokenRequestsByToAddress(toAddress string, pageIndex, pageSize uint32) (*WrapTokenRequestList, error) {
+	if pageSize > api.RpcMaxPageSize {
+		return nil, api.ErrPageSizeParamTooBig
+	}
+
 	_, context, err := api.GetFrontierContext(a.chain, types.BridgeContract)
 	if err != nil {
 		return nil, err
@@ -393,6 +401,10 @@ func (a *BridgeApi) GetAllWrapTokenRequestsByToAddress(toAddress string, pageInd
 }
 
 func (a *BridgeApi) GetAllWrapTokenRequestsByToAddressNetworkClassAndChainId(toAddress string, networkClass, chainId uint32, pageIndex, pageSize uint32) (*WrapTokenRequestList, error) {
+	if pageSize > api.RpcMaxPageSize {
+		return nil, api.ErrPageSizeParamTooBig
+	}
+
 	_, context, err := api.GetFrontierContext(a.chain, types.BridgeContract)
 	if err != nil {
 		return nil, err
@@ -441,6 +453,10 @@ func (a *BridgeApi) GetAllWrapTokenRequestsByToAddressNetworkClassAndChainId(toA
 }
 
 func (a *BridgeApi) GetAllUnsignedWrapTokenRequests(pageIndex, pageSize uint32) (*WrapTokenRequestList, error) {
+	if pageSize > api.RpcMaxPageSize {
+		return nil, api.ErrPageSizeParamTooBig
+	}
+
 	_, context, err := api.GetFrontierContext(a.chain, types.BridgeContract)
 	if err != nil {
 		return nil, err
@@ -579,6 +595,10 @@ func (a *BridgeApi) GetUnwrapTokenRequestByHashAndLog(txHash types.Hash, logInde
 }
 
 func (a *BridgeApi) GetAllUnwrapTokenRequests(pageIndex, pageSize uint32) (*UnwrapTokenRequestList, error) {
+	if pageSize > api.RpcMaxPageSize {
+		return nil, api.ErrPageSizeParamTooBig
+	}
+
 	_, context, err := api.GetFrontierContext(a.chain, types.BridgeContract)
 	if err != nil {
 		return nil, err
@@ -618,6 +638,10 @@ func (a *BridgeApi) GetAllUnwrapTokenRequests(pageIndex, pageSize uint32) (*Unwr
 }
 
 func (a *BridgeApi) GetAllUnwrapTokenRequestsByToAddress(toAddress string, pageIndex, pageSize uint32) (*UnwrapTokenRequestList, error) {
+	if pageSize > api.RpcMaxPageSize {
+		return nil, api.ErrPageSizeParamTooBig
+	}
+
 	_, context, err := api.GetFrontierContext(a.chain, types.BridgeContract)
 	if err != nil {
 		return nil, err
